@@ -60,7 +60,10 @@ RULE = ("corridor of free width W between two blocks (horizontal/vertical), m=2.
         "single-segment connectors between points INSIDE them lying 1-3 apart (window between the shape sides too small for "
         "(m-1)d in part of the cases), optionally one connector to a free point: singleConnectedSegment / endsInShape, the "
         "strong and stronger weights, fixed-variable displacements of 1e-5..1e-3, retries against shape sides (region tie "
-        "only; its route-level effects are the known class opt-final-nudge). Every case additionally carries the hook dump of all regions (when the hook is in the tree). A case is non-trivial if at least two connectors share a collinear stretch before nudging.")
+        "only; its route-level effects are the known class opt-final-nudge). Sixth family (tag fan): the corridor scene with "
+        "2-4 connectors leaving ONE common source point (+ optionally an unrelated connector), nudgeSharedPathsWithCommonEndPoint "
+        "on/off: common-end-point rule, equality constraints, infeasible equality/separation cycles that VPSC resolves by "
+        "dropping a constraint (region tie; no route-level promise for connectors with a common end point). Every case additionally carries the hook dump of all regions (when the hook is in the tree). A case is non-trivial if at least two connectors share a collinear stretch before nudging.")
 TRUSTED_BASE = ["Lean 4.33 kernel", "axioms: propext, Classical.choice, Quot.sound", "Lean compiler for the driver",
                 "the guarded hook in orthogonal.{h,cpp} (copies values out, changes nothing) and harness/c10_regions.h",
                 "tools/cpp2lean + clang AST (job nudgek)", "Model.NudgeRegion.roundDouble = IEEE round-to-nearest-even (x86-64 SSE2, no FMA contraction)",
